@@ -724,6 +724,18 @@ func (vr *voterecords) vote(
 		return false, false, nil
 	}
 
+	suf, sufFound, err := vr.getSuffrage()
+	if err != nil {
+		return false, false, errors.WithMessage(err, "vote")
+	}
+
+	// NOTE with the suffrage known, sign fact should be signed by the
+	// publickey of the suffrage node; same with the ballots validated later,
+	// in countFromBallots.
+	if sufFound && suf != nil && !suf.ExistsPublickey(node, signfact.Signer()) {
+		return false, false, nil
+	}
+
 	if vp != nil {
 		vr.vps[node.String()] = vp
 	}
@@ -739,18 +751,15 @@ func (vr *voterecords) vote(
 		}
 	}
 
-	switch _, found, err := vr.getSuffrage(); {
-	case err != nil:
-		return false, false, errors.WithMessage(err, "vote")
-	case !found:
+	if !sufFound {
 		vr.ballots[node.String()] = signfact
 
 		return true, false, nil
-	default:
-		vr.voted[node.String()] = signfact
-
-		return true, true, nil
 	}
+
+	vr.voted[node.String()] = signfact
+
+	return true, true, nil
 }
 
 func (vr *voterecords) isFinishedLocked() bool {
